@@ -10,6 +10,7 @@ import (
 
 	"golang.org/x/tools/go/ssa"
 
+	"gpv/internal/assign"
 	"gpv/internal/core"
 )
 
@@ -656,6 +657,8 @@ func checkC17(c *core.Ctx) {
 
 	// ---- R17.6 port slices
 	checkPortSlices(c, r6)
+	flowFieldsReset(c, c.Rule("R17.12", "T", "the fields a layer's flow accessor reads are assigned on every successful decode path"))
+	transportEndpointTypesDistinct(c, c.Rule("R17.11", "T", "no two layer types build their transport flow with the same endpoint type"))
 	noBufferViewInFlowFields(c, c.Rule("R17.10", "T", "no slice of a SerializeBuffer is stored into a layer field a flow accessor reads: the buffer's memory is rewritten by the next serialization"))
 }
 
@@ -1329,5 +1332,117 @@ func noBufferViewInFlowFields(c *core.Ctx, r *core.Rule) {
 		r.Missing("layers/flow field stores", fmt.Sprintf("only %d stores found", nStores))
 	} else {
 		r.OK("layers/flow-fields-not-buffer-views", "", fmt.Sprintf("%d stores into %d flow-source slice fields, none of a SerializeBuffer window", nStores, len(flowFields)))
+	}
+}
+
+// flowFieldsReset (R17.12): the fields a layer's flow accessor reads are
+// assigned by DecodeFromBytes on every successful path (must-reset, as R5.1,
+// but for every layer type with a flow accessor, not only the common stack):
+// a field assigned only under a condition keeps the previous packet's address
+// on a reused layer object, and the flow then reports an address that is not
+// in the packet.
+func flowFieldsReset(c *core.Ctx, r *core.Rule) {
+	p := c.P
+	an := assign.New(provablyNonNilErr)
+	n := 0
+	for _, d := range p.Roots().Dec {
+		if d.Kind != "DecodeFromBytes" || d.Fn.Signature.Recv() == nil {
+			continue
+		}
+		rt := d.Fn.Signature.Recv().Type()
+		// fields read by this type's flow accessors
+		read := map[string]bool{}
+		for _, nm := range []string{"LinkFlow", "NetworkFlow", "TransportFlow"} {
+			acc := methodOf(p, rt, nm)
+			if acc == nil || len(acc.Blocks) == 0 || acc.Synthetic != "" {
+				continue
+			}
+			core.Instrs(acc, func(ins ssa.Instruction) {
+				if ld, ok := ins.(*ssa.UnOp); ok && ld.Op == token.MUL {
+					if pth, ok := core.RecvFieldAddrPath(acc, ld.X); ok {
+						read[pth] = true
+					}
+				}
+			})
+		}
+		if len(read) == 0 {
+			continue
+		}
+		res := an.Analyze(d.Fn)
+		bad := map[string]ssa.Instruction{}
+		for _, f := range res.NotReset {
+			if read[f.Field] {
+				bad[f.Field] = f.Set
+			}
+		}
+		for _, f := range res.Stale {
+			if read[f.Field] {
+				bad[f.Field] = f.At
+			}
+		}
+		var fs []string
+		for f := range read {
+			fs = append(fs, f)
+		}
+		sort.Strings(fs)
+		for _, f := range fs {
+			if _, may := res.MaySet[f]; !may {
+				continue
+			}
+			n++
+			key := core.FnKey(d.Fn) + "/flow-field-reset:" + f
+			if at, isBad := bad[f]; isBad {
+				r.Violate(key, p.InstrPos(at), "field "+f+", from which this layer's flow is built, is assigned by DecodeFromBytes only on some successful paths: when a layer object is reused (DecodingLayerParser) and the next packet takes another path, the flow reports the previous packet's address, which is not in this packet", nil)
+			} else {
+				r.OK(key, p.Pos(d.Fn.Pos()), "assigned on every successful path")
+			}
+		}
+	}
+	c.Counts["flow_fields_checked"] = n
+	if n < 10 {
+		r.Missing("layers/flow fields", fmt.Sprintf("only %d found", n))
+	}
+}
+
+// transportEndpointTypesDistinct (R17.11): two different layer types do not
+// build their TransportFlow with the same endpoint type: flows are equal, and
+// collide as map keys, exactly when type and bytes are equal, so a UDP-Lite
+// flow typed as UDP is the same value as an unrelated UDP flow on those ports.
+func transportEndpointTypesDistinct(c *core.Ctx, r *core.Rule) {
+	p := c.P
+	nf := p.Func("", "NewFlow")
+	byType := map[string][]string{}
+	n := 0
+	for _, fn := range pkgFunctions(p, "layers") {
+		if fn.Name() != "TransportFlow" || fn.Signature.Recv() == nil {
+			continue
+		}
+		core.Instrs(fn, func(ins ssa.Instruction) {
+			cc := core.CallCommonOf(ins)
+			if cc == nil || cc.StaticCallee() != nf || len(cc.Args) != 3 {
+				return
+			}
+			if k, ok := layerTypeName(cc.Args[0]); ok {
+				n++
+				byType[k] = append(byType[k], recvTypeName(fn))
+			}
+		})
+	}
+	var ks []string
+	for k := range byType {
+		ks = append(ks, k)
+	}
+	sort.Strings(ks)
+	for _, k := range ks {
+		sort.Strings(byType[k])
+		key := "layers/TransportFlow/endpoint-type:" + k
+		if len(byType[k]) == 1 {
+			r.OK(key, "", "used by "+byType[k][0]+" only")
+		} else {
+			r.Violate(key, "", "endpoint type "+k+" is used for the transport flows of "+strings.Join(byType[k], " and ")+": flows of two different protocols on the same ports are equal values and collide as map keys, and the endpoints differ from the ones the protocol's own endpoint constructor builds", nil)
+		}
+	}
+	if n < 4 {
+		r.Missing("layers/TransportFlow constructors", fmt.Sprintf("only %d found", n))
 	}
 }
